@@ -130,21 +130,28 @@ def nnAll (pts : List (Pt K)) : List (Option Nat) := nnFrom pts pts 0
 
 def clamp01 (x : K) : K := if x < 0 then 0 else if x > 1 then 1 else x
 
-/-- the (s,t) part of `_closest_points_on_segments_2d` as a function of the five dot products -/
-def closestST (A B C D E : K) : K × K :=
-  let den := A * C - B * B
-  let st0 : K × K :=
-    if den > 0 then ((B * E - C * D) / den, (A * E - B * D) / den)
-    else if C > 0 then (0, E / C)
-    else if A > 0 then (-D / A, 0)
-    else (0, 0)
-  let st1 : K × K :=
-    if st0.1 < 0 then (0, if C > 0 then E / C else st0.2)
-    else if st0.1 > 1 then (1, if C > 0 then (E + B) / C else st0.2)
-    else st0
+/-- initial guess: interior stationary point, or the projections used for parallel / degenerate segments -/
+def firstStage (A B C D E : K) : K × K :=
+  if A * C - B * B > 0 then ((B * E - C * D) / (A * C - B * B), (A * E - B * D) / (A * C - B * B))
+  else if C > 0 then (0, E / C)
+  else if A > 0 then (-D / A, 0)
+  else (0, 0)
+
+/-- clamp `s`, recompute `t` -/
+def midStage (B C E : K) (st0 : K × K) : K × K :=
+  if st0.1 < 0 then (0, if C > 0 then E / C else st0.2)
+  else if st0.1 > 1 then (1, if C > 0 then (E + B) / C else st0.2)
+  else st0
+
+/-- clamp `t`, recompute and clamp `s` -/
+def finalStage (A B D : K) (st1 : K × K) : K × K :=
   if st1.2 < 0 then (if A > 0 then clamp01 (-D / A) else st1.1, 0)
   else if st1.2 > 1 then (if A > 0 then clamp01 ((B - D) / A) else st1.1, 1)
   else st1
+
+/-- the (s,t) part of `_closest_points_on_segments_2d` as a function of the five dot products -/
+def closestST (A B C D E : K) : K × K :=
+  finalStage A B D (midStage B C E (firstStage A B C D E))
 
 /-- `(s, t, px, py, qx, qy)` -/
 def closestCore (a0x a0y a1x a1y b0x b0y b1x b1y : K) : K × K × K × K × K × K :=
